@@ -13,6 +13,6 @@ import Ecpint.Props.C11
 import Ecpint.Props.C12
 import Ecpint.Props.C13
 import Ecpint.Props.C14All
-import Ecpint.Props.C15
+import Ecpint.Props.C15All
 import Ecpint.Props.C16
 import Ecpint.Props.C17
